@@ -342,6 +342,43 @@ def run_pipe_case(case):
     return out, case['status'] != 0
 
 
+def run_pipe_timeout_case(case):
+    """Per-recipient PipeRelay whose program hangs for one recipient: the timeout must not turn recipients the program
+    never finished (or was never started for) into successes."""
+    global SCRIPT_DIR
+    if SCRIPT_DIR is None:
+        SCRIPT_DIR = tempfile.mkdtemp(prefix='vfc11_')
+    d = tempfile.mkdtemp(prefix='pt_', dir=SCRIPT_DIR)
+    prog = os.path.join(d, 'deliver.sh')
+    with open(prog, 'w') as f:
+        f.write('#!/bin/sh\ncat >/dev/null\ncase "$1" in r%d@*) sleep 30;; esac\necho done >> "%s/done.$1"\nexit 0\n' % (case['hang'], d))
+    os.chmod(prog, os.stat(prog).st_mode | stat.S_IEXEC)
+    relay = PipeRelay([prog, '{recipient}'], timeout=0.4)
+    relay.per_recipient = True
+    env = make_env(case['nrcpt'], 'p')
+    rcpts = list(env.recipients)
+    desc = repr(case)
+    try:
+        res = relay.attempt(env, 0)
+    except BaseException as e:
+        res = Raised(e)
+    os.system('pkill -f "%s" >/dev/null 2>&1' % d)
+    verdicts, bad = classify_result(res, rcpts)
+    if bad:
+        return [('C11:pipe-timeout-result', '%s: %s' % (desc, bad))], True
+    out = []
+    for r in rcpts:
+        finished = os.path.exists(os.path.join(d, 'done.' + r))
+        if verdicts[r] == 'ok' and not finished:
+            out.append(('C11:success-reported-without-acceptance:pipe-timeout',
+                        '%s: %s reported delivered although the delivery program never completed for it' % (desc, r)))
+            break
+        if verdicts[r] == 'perm':
+            out.append(('C11:wrong-failure-class:pipe-timeout', '%s: %s reported permanent after a timeout' % (desc, r)))
+            break
+    return out, True
+
+
 def pipe_table():
     for relay in ('pipe', 'maildrop', 'dovecot'):
         for per in ((True, False) if relay == 'pipe' else (None,)):
@@ -382,6 +419,15 @@ def run_shard(ctx):
         f, nt = run_pipe_case(case)
         ctx.record(repr(case), nt, labels=['pipe', 'relay=' + case['relay']], case=dict(case, family='pipe'), failures=f)
 
+    for n in (2, 3, 4):
+        for hang in range(n):
+            index += 1
+            if not ctx.mine(index):
+                continue
+            case = {'nrcpt': n, 'hang': hang}
+            f, nt = run_pipe_timeout_case(case)
+            ctx.record(repr(case), nt, labels=['pipe-timeout'], case=dict(case, family='pipe-timeout'), failures=f)
+
     from vf.props import c11_http
     c11_http.run(ctx, index)
 
@@ -411,5 +457,8 @@ def replay(case):
         case['nrcpt'] = max(1, min(3, int(case.get('nrcpt', 1))))
         f, _ = run_pipe_case(case)
         return f
+    if fam == 'pipe-timeout':
+        n = max(2, min(4, int(case.get('nrcpt', 2))))
+        return run_pipe_timeout_case({'nrcpt': n, 'hang': int(case.get('hang', 0)) % n})[0]
     from vf.props import c11_http
     return c11_http.replay(fam, case)
